@@ -57,6 +57,43 @@ def sortStrs (l : List Str) : List Str := l.foldr insertSorted []
 the translated `Re` carries the `$` as `Re.eol` and the case-insensitivity in its classes. -/
 def accepts (r : Re) (s : Str) : Bool := !(r.ms s).isEmpty
 
+/-! ### the same answer, computed with sets of match lengths
+
+`Re.ms` lists every way a backtracking matcher can succeed, so an ambiguous pattern (an escape that may or may
+not swallow the following white space, followed by `\s+`) makes the list exponentially long although it holds
+at most `|s| + 1` different lengths. The driver therefore evaluates `acceptsFast`, which removes duplicates at
+every node; `Lemmas/Validate.lean` proves `acceptsFast = accepts`. -/
+
+/-- remove duplicates (keeps the last occurrence) -/
+def dedup : List Nat → List Nat
+  | [] => []
+  | x :: r => if (dedup r).contains x then dedup r else x :: dedup r
+
+def starSet (f : List Nat → List Nat) : Nat → List Nat → List Nat
+  | 0, _ => [0]
+  | fuel + 1, s =>
+    dedup (0 :: ((f s).filter (· > 0)).flatMap fun l1 => (starSet f fuel (s.drop l1)).map (l1 + ·))
+
+def repSet (f : List Nat → List Nat) : Nat → Nat → List Nat → List Nat
+  | m, 0, _ => if m = 0 then [0] else []
+  | m, n + 1, s =>
+    let more := (f s).flatMap fun l1 => (repSet f (m - 1) n (s.drop l1)).map (l1 + ·)
+    dedup (if m = 0 then 0 :: more else more)
+
+/-- the set of match lengths of `r` at the start of `s` (no order, no repetitions) -/
+def msSet : Re → List Nat → List Nat
+  | .eps, _ => [0]
+  | .cls neg rs, s => match s with
+      | c :: _ => if Re.inCls neg rs c then [1] else []
+      | [] => []
+  | .seq a b, s => dedup ((msSet a s).flatMap fun l1 => (msSet b (s.drop l1)).map (l1 + ·))
+  | .alt a b, s => dedup (msSet a s ++ msSet b s)
+  | .star a _, s => starSet (msSet a) (s.length + 1) s
+  | .rep a m n _, s => repSet (msSet a) m n s
+  | .eol, s => if s = [] ∨ s = [10] then [0] else []
+
+def acceptsFast (r : Re) (s : Str) : Bool := !(msSet r s).isEmpty
+
 /-! ## the registry -/
 
 structure Profile (π : Type) where
